@@ -22,28 +22,36 @@ def main():
     meta = json.load(open(os.path.join(out, 'meta.json'))) if os.path.exists(os.path.join(out, 'meta.json')) else {}
     if not checks:
         checks = [meta.get('property', name.split('-')[0])]
-    assert sh('git -C /repo status --porcelain --untracked-files=no').stdout.strip() == '', '/repo has local changes'
-    r = sh(f'git -C /repo apply --check {patch}')
-    if r.returncode:
-        print('patch does not apply to /repo:', r.stderr[:500])
-        return 2
+    # evaluate on a scratch worktree of /repo's HEAD (checks are pointed at it with FSIC_REPO), so that /repo itself is never touched
+    wt = f'/tmp/seedeval-{name}-{os.getpid()}'
+    sh(f'git -C /repo worktree add --detach {wt} HEAD')
     res = {'checks': {}}
     try:
-        sh(f'git -C /repo apply {patch}')
-        b = sh('bin/baseline', cwd=ROOT)
+        r = sh(f'git -C {wt} apply --check {patch}')
+        if r.returncode:
+            r3 = sh(f'git -C {wt} apply --3way {patch}')
+            if r3.returncode:
+                print('patch does not apply to the current /repo HEAD:', r.stderr[:500])
+                return 2
+        else:
+            sh(f'git -C {wt} apply {patch}')
+        env = dict(os.environ, FSIC_REPO=wt)
+        d0 = None
+        b = sh('bin/baseline', cwd=ROOT, env=env)
         res['tests_with_change'] = b.stdout.strip().splitlines()[0] if b.stdout.strip() else b.stderr[-300:]
         res['tests_pass_with_change'] = b.returncode == 0
-        d = sh(f'cd /repo && /venv/bin/python {out}/demo.py')
+        d = sh(f'cd {wt} && /venv/bin/python {out}/demo.py')
         res['demo_with_change_rc'] = d.returncode
         res['demo_with_change_tail'] = (d.stdout + d.stderr)[-300:]
         for c in checks:
-            k = sh(f'bin/check {c} --tier {tier} --no-evidence', cwd=ROOT)
+            k = sh(f'bin/check {c} --tier {tier} --no-evidence', cwd=ROOT, env=env)
             mech = sorted({l.strip().split()[0] for l in k.stdout.splitlines() if l.strip().startswith('mechanism=')})
             res['checks'][c] = {'rc': k.returncode, 'tier': tier, 'mechanisms': mech, 'violation_line': 'VIOLATION property=' in k.stdout}
+        sh(f'git -C {wt} checkout -- .')
+        d = sh(f'cd {wt} && /venv/bin/python {out}/demo.py')
+        res['demo_without_change_rc'] = d.returncode
     finally:
-        sh('git -C /repo checkout -- .')
-    d = sh(f'cd /repo && /venv/bin/python {out}/demo.py')
-    res['demo_without_change_rc'] = d.returncode
+        sh(f'git -C /repo worktree remove --force {wt}')
     confirmed = res.get('tests_pass_with_change') and res.get('demo_with_change_rc', 0) != 0 and res['demo_without_change_rc'] == 0
     res['confirmed'] = bool(confirmed)
     caught = [c for c, v in res['checks'].items() if v['rc'] == 1 and v['violation_line']]
@@ -55,7 +63,7 @@ def main():
         shutil.copy(patch, os.path.join(dst, 'patch.diff'))
         shutil.copy(os.path.join(out, 'demo.py'), os.path.join(dst, 'demo.py'))
         meta.update({'breaks_property': meta.get('property', name.split('-')[0]), 'origin': 'independent sub-agent given only the property text and a scratch worktree',
-                     'what_i_ran': f'git -C /repo apply patch.diff; bin/baseline; cd /repo && /venv/bin/python demo.py; ' + '; '.join(f'bin/check {c} --tier {tier}' for c in checks) + '; git -C /repo checkout -- .; demo.py again',
+                     'what_i_ran': 'scratch worktree of /repo HEAD under /tmp: git apply patch.diff; FSIC_REPO=<worktree> bin/baseline (repository tests); cd <worktree> && /venv/bin/python demo.py; ' + '; '.join(f'FSIC_REPO=<worktree> bin/check {c} --tier {tier}' for c in checks) + '; git checkout -- .; demo.py again; worktree removed (equivalent to git -C /repo apply / checkout, without touching /repo)',
                      'confirmation': {k: res[k] for k in ('tests_with_change', 'tests_pass_with_change', 'demo_with_change_rc', 'demo_without_change_rc')},
                      'checks': res['checks'], 'caught_by': caught})
         json.dump(meta, open(os.path.join(dst, 'meta.json'), 'w'), indent=1)
